@@ -27,6 +27,12 @@ WS_RULE = ("real WebSocket sessions against httptest.NewServer(NewRelay(recordin
            "non-JSON, invalid UTF-8 inside a JSON string — each followed by a barrier CLOSE that the handler answers with a barrier NOTICE (no timeouts); then 0-4 handler-emitted server "
            "messages of all 7 types read back as text frames; non-trivial = every session; distinct = distinct output line")
 
+MERGE_RULE = ("traces of atomic steps through the real NewMergeHandler over 2-4 SCRIPTED children (8-40 steps + completion): client REQ (filters aimed at a 12-event pool, match-all, limit 0-3) / "
+              "CLOSE / EVENT / COUNT; child EVENTs for requested subscriptions (sorted or not, matching or not, duplicates, fresh events), EOSE (once, twice, for unknown subscriptions), one OK per "
+              "EVENT and child (accepting or rejecting with/without machine-readable prefix) and one COUNT per COUNT and child, NOTICE/CLOSED/AUTH; a child's message is followed by a barrier "
+              "NOTICE of the same child and a client message is complete when every child has received it, so the step order is forced without timeouts; stream 2 additionally keeps the same "
+              "event id / COUNT subscription id in flight several times; non-trivial = every trace; distinct = distinct output line")
+
 PROPS = {
     "C02": {
         "lean_modules": ["MocProps.C02"],
@@ -193,6 +199,41 @@ PROPS = {
                       "model and the race detector watches the run.",
         "level_note": "Trusted: Lean kernel + standard axioms; harness/driver; the Go race detector; sync.RWMutex. Real thread interleavings are sampled, not enumerated.",
         "assumptions": ["logical-clock stamps bracket the cache call (the handler path adds a barrier COUNT that touches no cache state)"],
+    },
+    "C08": {
+        "lean_modules": ["MocProps.C08"], "theorem_files": ["MocProps/C08.lean"],
+        "gen_groups": ["Merge", "Matcher"], "harness_prop": "merge", "driver_prop": "merge",
+        "monitors": ["eose", "stream"],
+        "n_quick": 2500, "n_thorough": 25000, "thorough_seeds": 3,
+        "extra_streams": [{"harness_prop": "mergedup", "driver_prop": "merge", "monitors": ["eose", "stream"], "n_quick": 800, "n_thorough": 8000}],
+        "rule": MERGE_RULE,
+        "level_text": "On the model of the merge session's state machine (handler.go tests regenerated): a child's EOSE is forwarded, as EOSE with the same subscription id, exactly when it was the "
+                      "last one missing, never earlier (eose_with_state, eose_not_early), the state is dropped then (eose_clears), and over ANY trace of atomic steps from ANY state the client "
+                      "receives at most one EOSE per REQ and none for a subscription without state — never requested, closed, or past its EOSE (eose_at_most_once, no_state_no_eose, "
+                      "closed_no_eose). A child's EVENT yields nothing or exactly that message (event_out_shape); after the EOSE everything is forwarded unchanged with the state untouched "
+                      "(event_after_eose); before it a forwarded event comes from a child that has not sent EOSE, is not newer than the last event looked at, has an id not seen at its "
+                      "timestamp, found the limit not exhausted and matches the REQ's filters per NIP-01 (event_before_eose, via C02's limitMatchAll_verdict). Partial: the trace-level corollaries "
+                      "'pairwise distinct', 'non-increasing' and 'at most limit' follow from these per-step facts but are runtime-validated (monitor classes pre-*), not yet proved as one "
+                      "theorem; the goroutine plumbing (1-slot state channels, broadcast) is runtime-validated with forced step orders.",
+        "level_note": "Trusted: Lean kernel + standard axioms; go2lean; harness/driver; the atomicity of handleRecvMsg/handleSendMsg (state passed through 1-slot channels) is read off the code, and "
+                      "validated by forcing total orders on the real handler.",
+        "assumptions": ["a subscription id is not re-issued before its EOSE (as in the property's quantifier); re-issued ones are not judged", "child indices are < number of children"],
+    },
+    "C09": {
+        "lean_modules": ["MocProps.C09"], "theorem_files": ["MocProps/C09.lean"],
+        "gen_groups": ["Merge"], "harness_prop": "merge", "driver_prop": "merge",
+        "monitors": ["ok", "count"],
+        "n_quick": 2500, "n_thorough": 25000, "thorough_seeds": 3,
+        "extra_streams": [{"harness_prop": "mergedup", "driver_prop": "merge", "monitors": ["ok", "count"], "n_quick": 1500, "n_thorough": 15000}],
+        "rule": MERGE_RULE,
+        "level_text": "On the model of the two pending tables (rows per request in flight, oldest first; tests regenerated from handler.go): a child's OK/COUNT goes to the oldest row of its key the "
+                      "child has not answered; the client receives something only when that completes the OLDEST row, and then exactly the aggregate of that row (sendOK_out, sendCount_out); "
+                      "the aggregate of a row of replies with id x is one OK with id x accepting iff every child accepted (joinOK_verdict), whose text begins with the first rejecting child's "
+                      "prefix+message (joinOK_reason); a COUNT aggregate carries a count no child exceeds (maxCount_spec); other keys are untouched (sendOK_table); replies are OK/COUNT shaped "
+                      "(sendOK_shape, sendCount_shape). Partial: 'exactly one reply per request over every interleaving, including the same id in flight twice' is runtime-validated by the "
+                      "trace monitor (classes ok-count, ok-early, count-count, count-early) on forced step orders, not yet proved as a trace theorem.",
+        "level_note": "Trusted: Lean kernel + standard axioms; go2lean; harness/driver; atomicity of the handleSend*/handleRecv* steps as for C08.",
+        "assumptions": ["every child answers each EVENT with one OK and each COUNT with one COUNT (the property's quantifier), for the same key in request order"],
     },
     "C10": {
         "lean_modules": ["MocProps.C10"], "theorem_files": ["MocProps/C10.lean"],
